@@ -92,7 +92,8 @@ def sanityRecs (file : Bytes) (index : Index) (tpos tend : Nat) : Nat â†’ Nat â†
 def sanityWalk (file : Bytes) (index : Index) : Nat â†’ Nat â†’ Option Nat â†’ Except Err (Option Nat)
   | 0, _, _ => .ok none                                    -- unreachable (fuel = pos)
   | f+1, pos, ltid =>
-    if pos < 8 then .error .os                             -- `seek(pos - 8)` with a negative offset
+    if pos < 12 then .ok none                              -- reached the start of the file: only
+                                                           -- empty/undone transactions (repaired code)
     else
       let tl := beVal ((file.drop (pos - 8)).take 8)
       if pos < tl + 8 + 4 then .ok none                    -- `pos - tl - 8 < 4`
